@@ -76,7 +76,7 @@ pub mod br0 {
       r29(v0, v1) <-- r5(v0, v1), r27(v0, v1);
       r5(v0, v1) <-- r29(v0, v1);
       r30(v0, v1) <-- r5(v0, v1), r27(v0, v1);
-      r31(v1, v1) <-- r5(v0, 0) if ((*v0) <= 5) let v1 = ((*v0) + 1);
+      r31(v1, v1) <-- r5(v0, 0) if ((*v0) <= 5) let v1 = ((*v0) + 1), if (v1 <= 6);
       r5(v0, v1) <-- r31(v0, v1);
       r32(v1, v1) <-- r20(v0), r5(v1, v2) if ((*v0) <= 3) let v3 = ((*v1) + 0);
    }
@@ -203,7 +203,7 @@ pub mod tn1 {
       r31(v0, v1, v2) <-- r32(v0, v1, v2), r7(v0, v1, v2);
       r33(v0, v1, v2) <-- r7(v0, v1, v2), r32(v0, v1, v2);
       r34(v0, v2, ((*v1) + 1)) <-- r7(v0, v1, v2), if ((*v1) < 6);
-      r35(v5, v3) <-- r14(v0, v1, v2) if ((*v1) < 5) let v3 = ((*v0) + 1), r7(v1, 3, v4), r10(v5, 2, v4);
+      r35(v5, v3) <-- r14(v0, v1, v2) if ((*v1) < 5) let v3 = ((*v0) + 1), r7(v1, 3, v4), r10(v5, 2, v4), if (v3 <= 6);
       r36(v0, v2, v3) <-- r6(v0, v1), r7(v2, v0, v3);
    }
    pub struct Inst { p: Prog, pool: Option<ascent::rayon::ThreadPool> }
